@@ -1,5 +1,6 @@
 """C41 Protocol version negotiation only steps down and terminates (W-FULL, connect phase)."""
 from dsim import seams
+from dsim.core import StepCap
 from props.common import gen_strategy, quiet_logging, Violations
 from worlds.full import FullWorld
 
@@ -47,8 +48,11 @@ def gen_plan(rng, tier):
         else:
             vs = sorted(rng.sample([1, 2, 3, 4, 5], rng.randrange(1, 5)))
         nd = {'dc': 'dc1', 'rack': 'r1', 'release': rng.choice(['3.11.4', '4.0.1']), 'versions': vs}
-        if rng.random() < 0.3:
-            nd['beta_versions'] = [6]
+        if rng.random() < 0.4:
+            # a version the node only speaks with the USE_BETA flag: 6 (Cassandra 4.x) or 5 (Cassandra 3.x, where v5 was still beta)
+            beta = rng.choice([[6], [6], [5], [5, 6]])
+            nd['beta_versions'] = beta
+            nd['versions'] = [v for v in nd['versions'] if v not in beta] or [3, 4]
         nodes.append(nd)
     down = None
     if n > 1 and rng.random() < 0.3:
@@ -60,7 +64,7 @@ def gen_plan(rng, tier):
 
 
 def run_plan(plan, seed, choices=None):
-    w = FullWorld(plan, seed, choices, horizon=120.0, step_cap=1500000)
+    w = FullWorld(plan, seed, choices, horizon=120.0, step_cap=200000)     # a negotiation that never ends runs into the step cap
     sim, fc = w.sim, w.fc
     if plan.get('down'):
         nd = fc.nodes[plan['down']['node']]
@@ -92,7 +96,10 @@ def run_plan(plan, seed, choices=None):
             pass
 
     w.spawn(main, 'main')
-    status = w.run_until_users_done()
+    try:
+        status = w.run_until_users_done()
+    except StepCap:
+        status = 'stepcap'           # connect() is still going after 200 k scheduler steps: judged by C41/terminates below
     V = Violations()
     frames = sorted([f for f in fc.first_frames if f[4] == 5], key=lambda f: f[0])    # OPTIONS = opcode 5
     versions = [f[3] for f in frames]
